@@ -461,8 +461,8 @@ theorem type_step {cfg : GenCfg} {e : EqEnv} {f : Nat} (ihA : ∀ f', f' < f →
   | lit ov vs =>
     obtain ⟨rfl, hne, _⟩ := out_lit ht
     rw [optimize] at h
-    simp only [Bool.false_or, List.isEmpty_iff, hne, Bool.false_eq_true, ↓reduceIte, pure, Except.pure,
-      Except.ok.injEq, decide_false] at h
+    simp only [Bool.false_or, List.isEmpty_iff, hne, ↓reduceIte, pure, Except.pure,
+      Except.ok.injEq] at h
     subst h; simp [nf, hne]
   | list x =>
     rw [optimize] at h
